@@ -3,7 +3,7 @@
    filtered reply, a PTR translation). *)
 From Coq Require Import String Ascii.
 From Sdns Require Import Common.Base Gen.C20 C20.Model C20.Spec
-  C20.Proofs_gen C20.Proofs_embed C20.Proofs_ptr C20.Proofs_serve.
+  C20.Proofs_gen C20.Proofs_embed C20.Proofs_ptr C20.Proofs_serve C20.Proofs_loops.
 Open Scope N_scope.
 
 (* RFC 6052 2.4: 2001:db8:122::/48 + 192.0.2.33 = 2001:db8:122:c000:2:2100:: *)
@@ -186,3 +186,10 @@ Example ex_sub_query :
       /\ sub_query cur ex_nested_cf qn None false QNilResp None
          = Some (mk_subq (bs "33.2.0.192.in-addr.arpa.") 12 1 true false)).
 Proof. vm_compute. repeat split; reflexivity. Qed.
+
+(* the translated TTL loop on three A records (300, 60, 600) from the ceiling 120: 60 *)
+Example ex_ttl_loop :
+  go_responseWriter_synthesise_loop1_run
+    (map Proofs_loops.rr_as_A [RA (bs "h.t.") 300 [192; 0; 9; 1]; RA (bs "h.t.") 60 [192; 0; 9; 2]; RA (bs "h.t.") 600 [192; 0; 9; 3]]) 120
+  = (Common.GoList.GoNext, (map Proofs_loops.rr_as_A [RA (bs "h.t.") 300 [192; 0; 9; 1]; RA (bs "h.t.") 60 [192; 0; 9; 2]; RA (bs "h.t.") 600 [192; 0; 9; 3]], 60)).
+Proof. reflexivity. Qed.
